@@ -1000,7 +1000,8 @@ class C06(PropertyCheck):
         qs = rng.sample(range(N), nc + nt)
         a = None
         if par:
-            ks = [1, 2, 3, 4, -1, -2, -3, 5, 7, 8, 9, 12, -6, -8, 10]      # x pi/4: negative, > 2 pi included
+            # x pi/4: negative, exactly +-2 pi, inside [2 pi, 4 pi), exactly +-4 pi, beyond 4 pi
+            ks = [1, 2, 3, 4, -1, -2, -3, 5, 7, 8, 9, 12, -6, -8, 10, -11, 16, -16, 18, 26, -20]
             if zero:
                 ks = ks + [0, 0]
             # PHASEGATE: multiples of pi/4 only (the model's exact angles cannot halve an odd multiple of pi/8, C03's phOK)
